@@ -93,6 +93,7 @@ type RunOpts struct {
 	Count   int    `json:"count"`
 	Cpu     string `json:"cpu"` // -test.cpu
 	CI      bool   `json:"ci"`
+	CIEnv   string `json:"ci_env"` // with CI: the variable that makes the run a CI run (default CI=true), e.g. BUILD_NUMBER=17
 	Upd     string `json:"update_snaps"`
 	UpdSet  bool   `json:"update_snaps_set"`
 	GoFlags string `json:"goflags"` // GOFLAGS in the environment of the test process (as under `go test`)
@@ -140,7 +141,11 @@ func runProgram(o RunOpts, s Scenario) (Result, string, error) {
 	// env -i: nothing of the caller's environment leaks into the program
 	cmd.Env = []string{"PATH=/usr/bin:/bin", "HOME=" + tmp, "NO_COLOR=1", "VERIF_SCN=" + scnFile, "VERIF_RESULT=" + resFile}
 	if o.CI {
-		cmd.Env = append(cmd.Env, "CI=true")
+		if o.CIEnv != "" {
+			cmd.Env = append(cmd.Env, o.CIEnv)
+		} else {
+			cmd.Env = append(cmd.Env, "CI=true")
+		}
 	}
 	if o.UpdSet {
 		cmd.Env = append(cmd.Env, "UPDATE_SNAPS="+o.Upd)
